@@ -10,17 +10,24 @@ class C08(Check):
     shard_size = 60
     model_desc = ("Model/Len.v (domainNameLen, compressionLenSearch, escapedNameLen, typeBitMapLen and the len() terms that "
                   "tools/gotrans regenerates from ztypes.go/types.go each run), Model/Msg.v (Msg.Len, PackBuffer buffer sizing), "
-                  "Model/Rdata.v, Model/NameWire.v")
+                  "Model/Rdata.v, Model/NameWire.v, Model/OptVal.v (every EDNS0_* option type and SVCB* value type at Go struct level: "
+                  "pack(), len(), option code / key)")
     rule = ("random messages of all registered types (compressed and not, escaped names, OPT, SVCB, APL, bitmaps, ill-formed "
             "fields), escape-free messages of the 16 common types, messages crossing offset 16384; direct oracles: "
             "Len() >= len(Pack()), equality for plain messages, Len(rr) >= PackRR, Pack never fails for lack of room, "
             "PackBuffer uses the caller's buffer when it is larger than the uncompressed length; model cases: Len() and "
-            "PackBuffer results for a sample. Non-trivial: the message has at least one record.")
+            "PackBuffer results for a sample; option / parameter VALUES at struct level, every type, boundary-biased and "
+            "inconsistent fields (cases optval / svcbval: pack() octets or error class and the length Len adds; direct oracle "
+            "len >= len(pack()), and SVCB.len adds exactly the value's len()). Non-trivial: the message has at least one record.")
     trusted = ["hex/base64/base32 text codecs of Go's encoding/* are outside the model (fields held as the octets they denote)",
-               "EDNS0 option and SVCB parameter values are (code, packed value, reported length) triples at this level"]
+               "inside a record, EDNS0 option and SVCB parameter values are (code, packed value, reported length) triples; "
+               "Model/OptVal.v derives the triple from the Go struct fields for every type the library defines"]
 
-    partial = ["hypothesis of the theorems, checked per case by the harness rather than proved: for every EDNS0 option / SVCB parameter "
-               "the value's own len() is at least the octets its pack() returns (their codecs are outside this model level)",
+    partial = ["the hypothesis 'the length reported for an EDNS0 option / SVCB parameter is at least the octets its pack() returns' is now "
+               "PROVED for every option and value type the library defines, at Go struct level (option_len_covers_option_pack, "
+               "svcb_value_len_covers_value_pack; EDNS0_LOCAL / SVCBLocal are plain octets and are covered); it remains a hypothesis, "
+               "checked per case by the harness, only for implementations of the EDNS0 / SVCBKeyValue interfaces that the library "
+               "does not define (it cannot construct them itself: unknown codes unpack to EDNS0_LOCAL / SVCBLocal)",
                "records are taken with their base kind (SIG/KEY/CDS/... flattened to the embedded type, as Go method promotion does); "
                "rr_len_embedding_kind_refuted shows why the theorems say so"]
 
